@@ -158,6 +158,7 @@ func resolveLockRoles(c *Ctx) *lockRoles {
 	}
 	c.RequireFn(r.renewal, "locker.renewal")
 	c.Role("locker.renewal", relName(r.renewal), r.renewal.Pos())
+	c.KeyByRole(r.renewal, "locker.renewal")
 	return r
 }
 
